@@ -20,5 +20,5 @@ META = {
 
 def run(ctx, res):
     prog = ctx.prog("K0")
-    sigtab.rule_tables(prog, res, os.path.join(engine.VERIF, "oracles", "msm_signals.json"))
-    sigtab.rule_order(prog, res)
+    tabs = sigtab.rule_tables(prog, res, os.path.join(engine.VERIF, "oracles", "msm_signals.json"))
+    sigtab.rule_order(prog, res, tabs)
